@@ -226,7 +226,8 @@ ByteCases(tier) ==
       E  == Lit(<<h1, h2>>)
       F1 == SetToSeq({<<La, Anc("lineend")>>, <<Anc("linestart"), Cls("any")>>, <<Cls("any"), Anc("lineend")>>,
                       <<Loop(1, -1, FALSE, La), NotAnc("lineend")>>, <<Cls("whitespace")>>, <<NotCls("whitespace")>>, <<Lit(<<cr, nl>>)>>,
-                      <<Loop(1, -1, FALSE, NotLit(<<nl>>)), Anc("lineend")>>, <<Anc("linestart"), Loop(0, -1, TRUE, Cls("any")), Anc("lineend")>>})
+                      <<Loop(1, -1, FALSE, NotLit(<<nl>>)), Anc("lineend")>>, <<Anc("linestart"), Loop(0, -1, TRUE, Cls("any")), Anc("lineend")>>,
+                      <<Whole("line")>>, <<Whole("line"), Lit(<<cr, nl>>)>>, <<Cap("l", Whole("line"))>>})
       F2 == SetToSeq({<<Anc("wordstart"), Cls("any")>>, <<Cls("any"), Anc("wordend")>>, <<Anc("wordstart"), Loop(1, -1, TRUE, Cls("any")), Anc("wordend")>>,
                       <<Cls("letter")>>, <<Cls("upper")>>, <<Cls("lower")>>, <<NotCls("letter")>>, <<Cls("digit")>>, <<Cls("whitespace")>>,
                       <<NotIn(<<E, La>>)>>, <<In(<<E, La>>)>>, <<E>>, <<NotLit(<<h1, h2>>)>>, <<In(<<Rng(<<h1, 160>>, <<h1, 191>>)>>)>>,
@@ -247,6 +248,18 @@ LargeNullableCases ==
       T == <<Rep(ba, 3) \o <<bb>>, <<bb>>, <<105, 100, bb>>, <<105, 100, ba, ba, bb>>, <<105, 100, ba, ba, ba, bb>>, <<ba, ba, bb>>, <<ba, ba>>>>
   IN [i \in 1..Len(B) |-> [id |-> 330000 + i, defs |-> <<>>, cmds |-> <<FindAllCmd(B[i])>>, texts |-> T]]
 
+(* lines of a few hundred bytes (a reader or matcher that works in blocks    *)
+(* meets its block boundary at the line end), LF and CR LF                   *)
+LongLineCases ==
+  LET cr == 13
+      B == <<<<Whole("line")>>, <<Cap("l", Whole("line")), Loop(0, 1, FALSE, Lit(<<cr>>)), Lit(<<nl>>)>>, <<Loop(1, -1, FALSE, NotLit(<<nl>>)), Anc("lineend")>>>>
+      K == <<127, 128, 129, 255, 256, 257, 511, 512, 513>>
+      T == [j \in 1..(2 * Len(K)) |->
+              LET k == K[((j - 1) % Len(K)) + 1]
+              IN IF j <= Len(K) THEN Rep(ba, k) \o <<cr, nl>> \o <<bb, bb, cr, nl>> \o Rep(ba, k) \o <<cr, nl>>
+                 ELSE Rep(ba, k) \o <<nl>> \o <<bb, nl>> \o Rep(ba, k)]
+  IN [i \in 1..Len(B) |-> [id |-> 340000 + i, defs |-> <<>>, cmds |-> <<FindAllCmd(B[i])>>, texts |-> T]]
+
 CasesOf(fam, tier) ==
   CASE fam = "C01"  -> LET A0 == BodySeqCases(C01_Bodies(tier), tier)
                            \* the depth-3 bodies of the thorough tier run on the shorter texts
@@ -254,7 +267,7 @@ CasesOf(fam, tier) ==
                                                        THEN [A0[i] EXCEPT !.hi = LenFor({A0[i].sigma[j] : j \in 1..Len(A0[i].sigma)}, "quick")]
                                                        ELSE A0[i]]
                            Gc == GlobalSeqCases(C01_GlobalCases \cup C01_FreshPredCases, tier, Len(A))
-                       IN [i \in 1..Len(A) |-> WithReplace(A[i], 7)] \o Gc \o ClassTableCases(Len(A) + Len(Gc)) \o LargeCases \o ByteCases(tier) \o LargeNullableCases
+                       IN [i \in 1..Len(A) |-> WithReplace(A[i], 7)] \o Gc \o ClassTableCases(Len(A) + Len(Gc)) \o LargeCases \o ByteCases(tier) \o LargeNullableCases \o LongLineCases
     [] fam = "C02"  -> BodySeqCases(C02_Bodies, tier)
     [] fam = "C03N" -> BodySeqCases(C03_NamedBodies, tier)
     [] fam = "C02N" -> BodySeqCases(C03_NamedBodies, tier)
